@@ -416,7 +416,7 @@ def c19(work, tier, seed, replay):
     mi = re.findall(r"total: (\d+)\)", fo)
     rep.cov["native_fuzzing"] = {"seconds": secs, "executions": int(m[-1]) if m else 0, "interesting_inputs": int(mi[-1]) if mi else 0, "coverage_guided": "not built with coverage" not in fo}
     fuzz_outcome = "result" if rc == 0 and "PASS" in fo else "panic"
-    fz_ev = {"e": "cycle", "run": "native-fuzz", "k": 0, "comp": "endpoint/native-fuzz", "wit": "held", "cp": "valid", "data": "random", "outcome": fuzz_outcome,
+    fz_ev = {"e": "cycle", "run": "native-fuzz", "k": 0, "comp": "endpoint/native-fuzz", "wit": "held", "cp": "valid", "data": "random", "overrunms": 0, "outcome": fuzz_outcome,
              "sig": "-" if fuzz_outcome == "result" else "endpoint/native-fuzz/crash", "detail": fo[-1500:] if fuzz_outcome != "result" else ""}
     if not m:
         raise Inconclusive("native fuzzing did not run:\n" + fo[-1500:])
